@@ -85,6 +85,7 @@ class C07(Prop):
         x0 = alg.xi
         toks = [{'mt': self._col(alg.convert_sample(x0)), 'ln': float(alg.ln_likelihood_xi), 'dc': self._is_dc(x0)}]
         events = []
+        bad_props = []
         level = 0.0
         ended = False
         for k, want in enumerate(case['plan']):
@@ -116,6 +117,12 @@ class C07(Prop):
                 continue
             prop = alg.xi_1
             cur_ln = float(alg.ln_likelihood_xi)
+            if cls == 'transd' and isinstance(prop, dict) and isinstance(alg.xi, dict):
+                # a chain that sits on the double-couple model proposes double-couples, except for a model jump (which keeps
+                # strike, dip and slip); this holds during the learning period too
+                same = all(float(np.asarray(prop[kk]).flatten()[0]) == float(np.asarray(alg.xi[kk]).flatten()[0]) for kk in ('kappa', 'h', 'sigma'))
+                if self._is_dc(alg.xi) and not self._is_dc(prop) and not same:
+                    bad_props.append(k)
             if want:
                 level = max(level, cur_ln if cur_ln != NEG_INF else level) + 1000.0
                 ln = level
@@ -130,7 +137,7 @@ class C07(Prop):
             else:
                 events.append(('R', 1))
         out, _txt = alg.output(normalise=True, convert=False)
-        res = {'toks': toks, 'events': events, 'ended': bool(ended), 'tried': int(out['total_number_samples']),
+        res = {'toks': toks, 'events': events, 'ended': bool(ended), 'bad_props': bad_props, 'tried': int(out['total_number_samples']),
                'accepted': int(out['accepted']), 'rate': float(out['acceptance_rate']), 'pdc': out.get('pDC')}
         if isinstance(out.get('probability'), list) and not out['probability']:
             res['chain'] = []
@@ -354,6 +361,9 @@ class C07(Prop):
             out.append(('stops-early', 'run ended after %d tried proposals, chain length is %d' % (tried, C), None))
         if not impl['ended'] and tried >= C and len(impl['events']) == len(case['plan']):
             out.append(('stops-late', 'run did not end although %d proposals were tried (chain length %d)' % (tried, C), None))
+        if impl.get('bad_props'):
+            out.append(('transd-proposal', 'iterations %r: the chain sits on a double-couple state but proposes a full tensor that is not a model '
+                        'jump' % impl['bad_props'][:5], None))
         # every entry carries the likelihood of exactly that source
         known = {(tk['mt'], tk['ln']) for tk in t}
         for c in impl['chain']:
